@@ -55,6 +55,11 @@ def engIE (a : List String) : String :=
     match parseElemsIE elems with
     | some es => s!"buf {recordLength es} {hexOrDash (recordBuf es)}"
     | none => "bad-op"
+  | ["recbufx", elems, k] =>
+    -- built from the first k elements, the buffer taken, the rest appended by AddInfoElement: the same record
+    match parseElemsIE elems, k.toNat? with
+    | some es, some k => if k ≤ es.length then s!"buf {recordLength es} {hexOrDash (recordBuf es)}" else "bad-op"
+    | _, _ => "bad-op"
   | ["enc", ietok, vtok] =>
     match parseIE ietok, parseValue vtok with
     | some ie, some v =>
@@ -103,6 +108,18 @@ def chkIE (a : List String) : String :=
         | _ => .other
       if C15.holdsRT ie v tl o then "holds" else "fails"
     | _, _, _ => "bad-op"
+  | "recbuf" :: elems :: _ | "recbufx" :: elems :: _ =>
+    match parseElemsIE elems with
+    | some es =>
+      let o : C15.BufObs :=
+        match obs with
+        | ["buf", len, hex] =>
+          match len.toNat?, (if hex == "-" then some [] else fromHex hex) with
+          | some l, some bs => .buf l bs
+          | _, _ => .other
+        | _ => .other
+      if C15.holdsRecBuf es o then "holds" else s!"fails {obs.headD "no-answer"}"
+    | none => "bad-op"
   | _ => "na"
 
 end Driver
